@@ -16,6 +16,7 @@ Functions:
 from __future__ import annotations
 
 from collections.abc import Callable
+from copy import deepcopy
 from dataclasses import dataclass
 from functools import partial
 from typing import TYPE_CHECKING, Protocol, cast
@@ -68,6 +69,9 @@ def _update_parameters_and_initial_conditions[T](
         Result of the function execution.
 
     """
+    # Work on a copy: results keep a reference to the model and compute derived
+    # values lazily, so rows must not share (and overwrite) one model object
+    model = deepcopy(model)
     pd = pars.to_dict()
     model.update_variables({k: v for k, v in pd.items() if k in model._variables})  # noqa: SLF001
     model.update_parameters({k: v for k, v in pd.items() if k in model._parameters})  # noqa: SLF001
